@@ -143,3 +143,27 @@ h_nb8b_one(void)
 {
     DFK_ONE_HARNESS(DFKnb8b, 8);
 }
+
+void
+h_nb1b_inplace(void)
+{
+    DFK_NB_INPLACE_HARNESS(DFKnb1b, 1);
+}
+
+void
+h_nb2b_inplace(void)
+{
+    DFK_NB_INPLACE_HARNESS(DFKnb2b, 2);
+}
+
+void
+h_nb4b_inplace(void)
+{
+    DFK_NB_INPLACE_HARNESS(DFKnb4b, 4);
+}
+
+void
+h_nb8b_inplace(void)
+{
+    DFK_NB_INPLACE_HARNESS(DFKnb8b, 8);
+}
